@@ -42,7 +42,6 @@ SLICE_DIALECTS = ["sqlite:qmark", "sqlite:numeric", "sqlite:named", "postgresql:
                   "mariadb:qmark", "mariadb:format", "mssql:qmark", "mssql:named"]
 STMT_SHAPES = ["plain", "returning_bind", "sql_expr_value"]
 SENTINELS = ["autoinc", "client_pk", "insert_sentinel", "unsorted"]
-ROWCOUNTS = range(1, 8)
 PAGES = range(1, 9)
 MAXP = [None, 7, 10]
 
@@ -474,12 +473,13 @@ def run_case(case):
 
 def all_cases(tier):
     cases = []
-    maxrows = 8 if tier == "thorough" else 7
+    maxrows = 10 if tier == "thorough" else 7
+    pages = range(1, 12) if tier == "thorough" else PAGES
     for spec in SLICE_DIALECTS:
         for shape in STMT_SHAPES:
             for sentinel in SENTINELS:
                 for n in range(1, maxrows + 1):
-                    for page in PAGES:
+                    for page in pages:
                         for mp in MAXP:
                             cases.append(dict(part="slicing", dialect=spec, statement_shape=shape, sentinel=sentinel, rows=n, page_size=page, max_parameters=mp))
     for spec in SLICE_DIALECTS:
@@ -573,7 +573,7 @@ def run(run, tier, seed, args):
         samples.append(dict(case=case, contract_failures=len(r[0]), clauses_evaluated=r[1], info={k: (list(v) if isinstance(v, tuple) else v) for k, v in r[2].items()}))
     if ncases == 0 or parts.get("slicing", 0) == 0 or parts.get("reorder-stub", 0) == 0 or parts.get("execute-sqlite", 0) == 0:
         run.crashes.append("C12: a part of the scope did not run (vacuity guard): %r" % parts)
-    maxrows = 8 if tier == "thorough" else 7
+    maxrows = 10 if tier == "thorough" else 7
     run.coverage.update(
         evaluations=evals, cases=ncases, cases_per_part=parts, distinct_nontrivial=nontriv,
         rule="cases enumerated exhaustively over the stated grid, each distinct by construction; one evaluation = one contract clause on one real call; "
@@ -581,10 +581,10 @@ def run(run, tier, seed, args):
              "under sort_by_parameter_order",
         samples=samples, exhaustive=True,
         scope="(F1) the real batch generator driven directly with INSERT..RETURNING compiled for %s x statement shapes %s x sentinel styles %s x "
-              "rows 1..%d x page sizes 1..8 x insertmanyvalues_max_parameters in %s; (F2) the real dialect-level generator against a stub server returning "
+              "rows 1..%d x page sizes 1..%d x insertmanyvalues_max_parameters in %s; (F2) the real dialect-level generator against a stub server returning "
               "each batch's rows permuted (all permutations of <= 3 rows, 6 fixed ones beyond) x the same dialects x sentinel styles x rows 1..%d x page "
               "sizes {1,2,3,5,100}; (F3) executemany INSERT..RETURNING and return_defaults on in-memory SQLite with a permuting execution context x styles %s x "
-              "rows 1..%d x page sizes {1,2,3,5,100} x sort_by_parameter_order on/off" % (SLICE_DIALECTS, STMT_SHAPES, SENTINELS, maxrows, MAXP, maxrows, EXEC_STYLES, maxrows),
+              "rows 1..%d x page sizes {1,2,3,5,100} x sort_by_parameter_order on/off" % (SLICE_DIALECTS, STMT_SHAPES, SENTINELS, maxrows, 11 if tier == "thorough" else 8, MAXP, maxrows, EXEC_STYLES, maxrows),
         contract_failures=nfails, wall_s=round(time.time() - t0, 1))
     run.assumptions += [
         "the server inserts what the statement says and generates autoincrement keys in VALUES order (what the sen_counter ORDER BY form asks for)",
